@@ -1,6 +1,7 @@
 package ech
 
 import (
+	"fmt"
 	"context"
 	"crypto/tls"
 	"errors"
@@ -45,7 +46,8 @@ func verifC17Dial() {
 		callerSN = "caller.example"
 	}
 	callerECHSnap := append([]byte(nil), callerECH...) // the list as the caller wrote it
-	tc := &tls.Config{ServerName: callerSN, EncryptedClientHelloConfigList: callerECH, NextProtos: []string{"h2"}}
+	tc := &tls.Config{ServerName: callerSN, EncryptedClientHelloConfigList: callerECH, NextProtos: []string{"h2"}, MinVersion: tls.VersionTLS13}
+	wrapErr := vBool()
 
 	// resolution result: record 0 -> address 10.0.0.1, record 1 -> target t1 -> 10.0.0.2; plain address 10.0.0.1
 	res := ResolveResult{Port: 443, Address: []net.IP{{10, 0, 0, 1}}, Additional: map[string][]net.IP{"t1.example": {{10, 0, 0, 2}}}}
@@ -91,24 +93,37 @@ func verifC17Dial() {
 			specs, perr := ParseConfigList(ech)
 			vAssert(perr == nil && len(specs) == 1 && string(specs[0].PublicName) == publicName, "PublicName bootstrap: one well-formed config naming the public name")
 		}
-		out := vInt(0, 3)
-		if prevRetry && out == 2 {
-			out = 3 // second rejection
+		vAssert(len(c.NextProtos) == 1 && c.NextProtos[0] == "h2" && c.MinVersion == tls.VersionTLS13, "the caller's other TLS settings reach every attempt")
+		if lastOutcome == 2 && !prevRetry {
+			vFail("a rejection that carries retry configs is followed by one retry to the same address")
 		}
+		out := vInt(0, 3)
 		lastOutcome = out
+		wrap := func(e error) error {
+			if wrapErr {
+				return fmt.Errorf("dial %s: %w", addr, e) // dial functions may wrap the TLS error
+			}
+			return e
+		}
 		switch out {
 		case 0:
 			return &vDialConn{addr: addr}, nil
 		case 1:
 			return nil, errVTransport
 		case 2:
-			return nil, &tls.ECHRejectionError{RetryConfigList: retryList}
+			if prevRetry {
+				// a hostile server answers the retry with yet another retry list
+				lastOutcome = 3
+				return nil, wrap(&tls.ECHRejectionError{RetryConfigList: []byte{0x4E, 0x78}})
+			}
+			return nil, wrap(&tls.ECHRejectionError{RetryConfigList: retryList})
 		}
-		return nil, &tls.ECHRejectionError{}
+		return nil, wrap(&tls.ECHRejectionError{})
 	}
 	ctx := context.WithValue(context.Background(), transportResolverKey, &transportResolver{host: host, result: res})
 	conn, err := d.Dial(ctx, "tcp", host+":443", tc)
 	vReach("dialed")
+	vAssert(lastOutcome != 2, "a rejection that carries retry configs is followed by one retry to the same address")
 	vAssert((conn != nil) == (err == nil), "a connection or an error")
 	// retry discipline: a rejection with retry configs is followed by exactly one more call to the same address
 	for i, c := range calls {
@@ -148,7 +163,7 @@ func verifC17ResolverPath() {
 		case q.Type == 65 && q.Name == "alias.example":
 			m.Answer = append(m.Answer, dns.RR{Name: q.Name, Type: 65, Class: 1, TTL: 60, Data: dns.HTTPS{Priority: 1, Target: "svc.example", ECH: []byte{0xD1}}})
 		case q.Type == 1:
-			m.Answer = append(m.Answer, dns.RR{Name: q.Name, Type: 1, Class: 1, TTL: 60, Data: net.IP{10, 0, 0, byte(len(q.Name))}})
+			m.Answer = append(m.Answer, dns.RR{Name: q.Name, Type: 1, Class: 1, TTL: 60, Data: net.IP{10, 0, byte(len(q.Name)), q.Name[1]}}) // distinct per name
 		}
 		return m, nil
 	}
@@ -161,6 +176,17 @@ func verifC17ResolverPath() {
 		vAssert(!requireECH || c.EncryptedClientHelloConfigList != nil, "RequireECH: no attempt without an ECH config list")
 		if c.ServerName == "h1.example" {
 			vAssert(vBytesEq(c.EncryptedClientHelloConfigList, []byte{0xD1}), "ECH list of the record that produced the address")
+		}
+		// the server name is bound to the address: h1's service lives at svc.example, h2 has plain addresses
+		host, _, _ := net.SplitHostPort(addr)
+		ip := net.ParseIP(host).To4()
+		vAssert(ip != nil, "a resolved address is dialled")
+		if ip != nil {
+			if ip[3] == 'v' { // sVc.example
+				vAssert(c.ServerName == "h1.example", "an address of h1's service target is dialled under h1's name")
+			} else {
+				vAssert(ip[3] == '2' && c.ServerName == "h2.example" && c.EncryptedClientHelloConfigList == nil, "an address of h2 is dialled under h2's name, without ECH")
+			}
 		}
 		if vBool() {
 			return nil, errVTransport
